@@ -287,12 +287,12 @@ func ConfirmDeadlock(seed, gid int, warmUp bool, c1, c2 *Call, n1, n2 int) (bool
 		}
 	}
 	d1, d2 := make(chan struct{}), make(chan struct{})
-	go func() { atomic.StoreInt64(&g1, goid()); defer close(d1); c1.Exec(s.API) }()
+	go func() { atomic.StoreInt64(&g1, goid()); defer close(d1); c1.ExecRaw(s.API) }()
 	go func() {
 		time.Sleep(2 * time.Millisecond)
 		atomic.StoreInt64(&g2, goid())
 		defer close(d2)
-		c2.Exec(s.API)
+		c2.ExecRaw(s.API)
 	}()
 	got := 0
 	tm := time.After(3 * time.Second)
